@@ -81,6 +81,7 @@ class Runtime:
         self.ext_fail = {}
         self.dests = {}
         self.offered, self.accepted = [], []
+        self.reserved = []  # every id returned by serialize_task_id
         self.failures = []  # (dest, call index, exc id, was the message a report?)
         self.api = []  # (call name, "ok" | "raised:<desc>")
         self.vars, self.ids = {}, {}
@@ -531,6 +532,7 @@ def exec_stmt(rt, s):
         if a is None:
             raise Stuck()
         rt.ids[s["y"]] = api(rt, "serialize_task_id", a.serialize_task_id)
+        rt.reserved.append(rt.ids[s["y"]])
     elif op == "continueWith":
         spec = s["spec"]
         tid = rt.take_id(s["y"])
@@ -541,6 +543,9 @@ def exec_stmt(rt, s):
     elif op == "addDests":
         api(rt, "add_destinations", eliot.add_destinations, *[rt.dest(d) for d in s["ds"]])
     elif op == "removeDest":
+        from eliot import _output
+        if rt.dest(s["d"]) not in _output.Logger._destinations._destinations:
+            raise Stuck()  # removing a destination that is not registered: misuse, outside the model
         api(rt, "remove_destination", eliot.remove_destination, rt.dest(s["d"]))
     elif op == "addGlobals":
         api(rt, "add_global_fields", eliot.add_global_fields, **rt.kwargs(s["fs"]))
